@@ -530,7 +530,58 @@ def c10(run):
             "and the data directive's fields and note compared")
 
 
+C07_CFG = """CONSTANT MaxOps = 0
+CONSTANT MaxDepth = 0
+CONSTANT MaxReads = 0
+CONSTANT TextMenu = {}
+CONSTANT TitleMenu = {}
+CONSTANT ItemMenu = {}
+CONSTANT OpKinds = {}
+CONSTANT Pages <- AllPages
+INIT EInit
+NEXT ENext
+INVARIANT C07_TitleModuleEntries
+INVARIANT C07_ContentInsideOwnDirective
+INVARIANT C07_EntriesDisjoint
+INVARIANT IndentExact
+INVARIANT OptionsFirst
+INVARIANT EEmit
+"""
+
+
+def c07(run):
+    import c07h
+    res = lib.run_tlc("MC_C07", C07_CFG, coverage=False)
+    run.add_tlc("MC_C07(all pages of the menu)", res)
+    c07h.replay(run, res.lines.get("BEH", []))
+    # the repository's own samples, parsed the same way (binding B for the page structure)
+    import glob
+    import agg
+    n = 0
+    for f in sorted(glob.glob(lib.REPO + "/tests/test_samples/*.cmake") + glob.glob(lib.REPO + "/tests/examples/*.cmake")):
+        status, text, _, _ = agg.run_real(open(f, encoding="utf-8").read(), agg.make_settings())
+        if status != "ok":
+            continue
+        top, msgs = c07h.docutils_view(text)
+        n += 1
+        run.count("fixture:" + f)
+        if msgs or any(t[0] == "stray" for t in top):
+            run.violation({"file": f, "features": {"fixture": True}}, "no error-level message, directives only at top level",
+                          {"messages": msgs, "top": [t[0] for t in top]}, "generated page of a repository sample is not well formed")
+    run.notes["fixture_pages_parsed"] = n
+    run.assumptions += ["doc bodies are drawn from a menu of valid reST shapes; argument values contain no line breaks",
+                        "docutils 0.23 with stub directives (module, function, data, py:class, py:method, py:attribute, toctree) "
+                        "and a stub 'class' role stands for the Sphinx parser"]
+    return ("TLC renders every page of the menu (9 entry kinds x 7 doc shapes, undocumented entries, sibling pairs, classes "
+            "with bases/constructors/methods/attributes/inner classes) through the writer model, checks C07_TitleModuleEntries, "
+            "C07_ContentInsideOwnDirective, C07_EntriesDisjoint on the serialisation; each page is produced for real from CMake "
+            "source and (i) compared character for character with the specification's lines (drift), (ii) parsed by docutils: "
+            "no error-level message, title then module then one directive per entry as siblings, doc text and class members "
+            "nested in their own entry and in no other")
+
+
 CHECKS = {p: agg_property for p in AGG}
+CHECKS["C07"] = c07
 CHECKS["C10"] = c10
 CHECKS["C04"] = c04
 CHECKS["C06"] = c06
